@@ -857,7 +857,7 @@ def point_intersects_task(skind, sspec, pderiv='identity', sliced_shape=False, t
     return out
 
 
-def replay_point_intersects(skind, sspec, pderiv, sliced_shape, finding):
+def replay_point_intersects(skind, sspec, pderiv, sliced_shape, finding, sdtype=None):
     """real PointArray.intersects forms against the value for a fresh one-point array (missing -> False)"""
     quantity, form, problem, detail = finding
     model = detail.get('model') if isinstance(detail, dict) else {}
@@ -876,8 +876,18 @@ def replay_point_intersects(skind, sspec, pderiv, sliced_shape, finding):
             return [sub(e) for e in x]
         return None if x is None else vals[(int(x) - T.TAG_BASE) // T.TAG_STEP]
     import spatialpandas.geometry as sg
+    if sdtype is None:
+        # the symbolic model does not distinguish coordinate subtypes of the operand: try the same subtype first, then others
+        integral = all(float(v) == int(v) for v in vals.values())
+        last = None
+        for sd in ['float64'] + (['int64', 'float32'] if integral else []):
+            bad, wit = replay_point_intersects(skind, sspec, pderiv, sliced_shape, finding, sdtype=sd)
+            last = (bad, wit)
+            if bad:
+                return bad, wit
+        return last
     parr = DERIVS[pderiv][0](sg.PointArray([sub(e) for e in ppy], dtype='float64'))
-    sarr = T.array_class(skind)([sub(e) for e in spy], dtype='float64')
+    sarr = T.array_class(skind)([sub(e) for e in spy], dtype=sdtype)
     if sliced_shape:
         sarr = sarr[1:]
     shape = sarr[0]
@@ -887,8 +897,10 @@ def replay_point_intersects(skind, sspec, pderiv, sliced_shape, finding):
         e = parr[j]
         if e is None:
             return False
+        if skind == 'point':          # independent oracle: the coordinates are equal
+            return [float(c) for c in e.flat_values] == [float(c) for c in shape.flat_values]
         return bool(sg.PointArray([e.flat_values], dtype='float64').intersects(shape)[0])
-    wit = {'kind': 'point', 'shape_kind': skind, 'shape': shape.data.as_py() if skind != 'point' else shape.flat_values.tolist(),
+    wit = {'kind': 'point', 'shape_kind': skind, 'shape_dtype': sdtype, 'shape': shape.data.as_py() if skind != 'point' else shape.flat_values.tolist(),
            'points': [None if parr[j] is None else parr[j].flat_values.tolist() for j in range(n)], 'form': form, 'quantity': 'intersects',
            'elements': [None if parr[j] is None else parr[j].flat_values.tolist() for j in range(n)]}
     try:
